@@ -554,6 +554,48 @@ theorem C11_create_default {s s' : State} (h : Reach s) {n : String} {dt : DType
       have h2 : (s.layers l).data ≠ s.next := by have := hw.data_lt l hl; omega
       simp [State.value, upd, h1, h2]
 
+/-- `create_property_layer(name, default_value, dtype)` with a default of any Python type: the array is
+    `np.full(dims, default, dtype)` — every entry is numpy's cast of the default into the dtype asked for (2.75 into
+    an int layer: 2, any non-zero number into a bool layer: True; the constructor only warns) — the layer has that
+    dtype, and at every cell of the grid both views read that one cast value. -/
+theorem C11_create_typed_default {s s' : State} (h : Reach s) {n : String} {dt : DType} {w : WVal} {k : Nat}
+    (hc : step s (.create n dt w) = (s', .id k)) :
+    s'.named? n = some k ∧ s'.dtypeOf k = dt ∧
+    (∀ x, w = .py x → ∀ c, s'.value k c = castTo dt x) ∧ (∀ v, w = .raw v → ∀ c, s'.value k c = v) ∧
+    ∀ c, inBounds s'.dims c = true →
+      cellGet s' n c = .val (w.resolve dt) ∧ layerGet s' k c = .val (w.resolve dt) := by
+  have hr' : Reach s' := by
+    have := Reach.step (.create n dt w) h
+    rwa [hc] at this
+  simp only [step] at hc
+  obtain ⟨hk, hn, hv, _⟩ := C11_create_default h hc
+  have hdt : s'.dtypeOf k = dt := by
+    unfold create at hc
+    split at hc
+    · simp at hc
+    · simp only [Prod.mk.injEq, Out.id.injEq] at hc
+      obtain ⟨rfl, rfl⟩ := hc
+      simp [State.dtypeOf, upd]
+  refine ⟨hn, hdt, ?_, ?_, ?_⟩
+  · rintro x rfl c; exact hv c
+  · rintro v rfl c; exact hv c
+  · intro c hcb
+    obtain ⟨h1, h2⟩ := C11_two_views_one_value hr' hn hcb
+    rw [h1, h2, hv c]
+    exact ⟨rfl, rfl⟩
+
+/-- the same for a free-standing `PropertyLayer(name, dims, default, dtype)` of any shape -/
+theorem C11_new_layer_typed_default {s s' : State} {n : String} {dims : List Nat} {dt : DType} {w : WVal} {k : Nat}
+    (hc : step s (.newLayer n dims dt w) = (s', .id k)) :
+    k = s.nLayers ∧ s'.layer? k = some ⟨n, dims, s.next⟩ ∧ s'.dtypeOf k = dt ∧ ∀ c, s'.value k c = w.resolve dt := by
+  simp only [step] at hc
+  unfold newLayer at hc
+  split at hc
+  · simp at hc
+  · simp only [Prod.mk.injEq, Out.id.injEq] at hc
+    obtain ⟨rfl, rfl⟩ := hc
+    simp [State.layer?, State.dtypeOf, State.value, upd]
+
 /-- `remove_property_layer(name)`: the name disappears from the grid, every other name stays attached
     to its layer, and no layer object changes its values (the removed layer can be attached again). -/
 theorem C11_detach_keeps_values {s s' : State} {n : String} (hd : detach s n = (s', .ok)) :
@@ -817,6 +859,110 @@ theorem C11_only_empty_is_actual_emptiness (impl : Impl) (dims : List Nat) (cap 
   · rintro ⟨a, b, d⟩
     exact ⟨a, by simp [b], d⟩
 
+/-! ## the layer's own `select_cells` and `aggregate` -/
+
+/-- `layer.select_cells(condition, return_list)` on the layer itself (attached or not): the list form is
+    exactly the coordinates of the layer's shape whose *current* value passes the condition — each once, in
+    row-major order — and the mask form is the condition evaluated at every coordinate; the list is the
+    coordinates at which the mask is true. -/
+theorem C11_layer_select_exact {s : State} {l : Nat} {p : Int → Bool} {list : List Coord} {mask : List Bool}
+    (h : layerSelect s l p = .sel list mask) :
+    l < s.nLayers ∧
+    (∀ c, c ∈ list ↔ inBounds (s.layers l).dims c = true ∧ p (s.value l c) = true) ∧
+    mask = (cells (s.layers l).dims).map (fun c => p (s.value l c)) ∧
+    list = (((cells (s.layers l).dims).zip mask).filter (·.2)).map (·.1) ∧ list.Nodup := by
+  unfold layerSelect State.layer? at h
+  split at h
+  · simp at h
+  · next L hL =>
+    split at hL
+    · next hlt =>
+      simp only [Option.some.injEq] at hL
+      subst hL
+      simp only [Out.sel.injEq] at h
+      obtain ⟨rfl, rfl⟩ := h
+      refine ⟨hlt, ?_, rfl, filter_eq_of_zip_map _ _, (cells_nodup _).sublist List.filter_sublist⟩
+      intro c
+      simp only [List.mem_filter, mem_cells, State.value]
+    · simp at hL
+
+/-- For an attached layer of a reachable state the layer's own selection speaks about the cell attributes:
+    a cell of the grid is in the list iff the value read through *its attribute* passes the condition. -/
+theorem C11_layer_select_reads_cell_values {s : State} (hr : Reach s) {n : String} {l : Nat}
+    (hn : s.named? n = some l) {p : Int → Bool} {list : List Coord} {mask : List Bool}
+    (h : layerSelect s l p = .sel list mask) {c : Coord} (hc : inBounds s.dims c = true) :
+    c ∈ list ↔ ∃ v, cellGet s n c = .val v ∧ p v = true := by
+  obtain ⟨_, hmem, _⟩ := C11_layer_select_exact h
+  obtain ⟨h1, h2⟩ := C11_two_views_one_value hr hn hc
+  rw [hmem c, hr.wf.att_dims n l hn, h1, h2]
+  simp [hc]
+
+/-- `layer.aggregate(np.sum | np.max | np.min)`: the sum is the sum of the values at the coordinates of the
+    layer's shape; the maximum (minimum) is the value of some cell and no cell's value is beyond it; it is
+    refused exactly for a layer without cells (numpy: zero-size array has no identity for max / min). -/
+theorem C11_aggregate_exact {s : State} {l : Nat} (hl : l < s.nLayers) :
+    aggregate s l .sum = .val (((cells (s.layers l).dims).map (s.value l)).sum) ∧
+    (∀ hi : Bool, ∀ v, aggregate s l (if hi then .max else .min) = .val v ↔
+      (∃ c ∈ cells (s.layers l).dims, s.value l c = v) ∧
+      ∀ c ∈ cells (s.layers l).dims, notBeyond hi (s.value l c) v) ∧
+    (∀ hi : Bool, aggregate s l (if hi then .max else .min) = .err (.value .empty) ↔
+      cells (s.layers l).dims = []) := by
+  have hL : s.layer? l = some (s.layers l) := by simp [State.layer?, hl]
+  have hv : (fun c => s.heap (s.layers l).data c) = s.value l := rfl
+  refine ⟨?_, ?_, ?_⟩
+  · simp only [aggregate, hL, foldl_add_eq_sum, Int.zero_add]; rfl
+  · intro hi v
+    have key : aggregate s l (if hi then .max else .min) =
+        match extremum hi ((cells (s.layers l).dims).map (s.value l)) with
+        | some v => .val v | none => .err (.value .empty) := by
+      cases hi <;> simp only [aggregate, hL] <;> rfl
+    rw [key]
+    constructor
+    · intro h
+      split at h
+      · next t ht =>
+        simp only [Out.val.injEq] at h
+        subst h
+        refine ⟨?_, ?_⟩
+        · have := extremum_mem ht
+          simp only [List.mem_map] at this
+          exact this
+        · intro c hc
+          exact extremum_bound ht _ (List.mem_map_of_mem hc)
+      · simp at h
+    · rintro ⟨⟨c, hc, rfl⟩, hb⟩
+      split
+      · next t ht =>
+        have hm := extremum_mem ht
+        simp only [List.mem_map] at hm
+        obtain ⟨c', hc', rfl⟩ := hm
+        have b1 := extremum_bound ht _ (List.mem_map_of_mem hc)
+        have b2 := hb c' hc'
+        congr 1
+        unfold notBeyond at b1 b2
+        cases hi <;> simp at b1 b2 <;> omega
+      · next hnone =>
+        have := extremum_eq_none.mp hnone
+        simp only [List.map_eq_nil_iff] at this
+        rw [this] at hc
+        simp at hc
+  · intro hi
+    have key : aggregate s l (if hi then .max else .min) =
+        match extremum hi ((cells (s.layers l).dims).map (s.value l)) with
+        | some v => .val v | none => .err (.value .empty) := by
+      cases hi <;> simp only [aggregate, hL] <;> rfl
+    rw [key]
+    split
+    · next t ht =>
+      simp only [reduceCtorEq, false_iff]
+      intro hnil
+      rw [hnil] at ht
+      simp [extremum] at ht
+    · next hnone =>
+      simp only [true_iff]
+      have := extremum_eq_none.mp hnone
+      simpa using this
+
 /-! ## one layer object on two grids -/
 
 /-- A layer added to a second grid as well (`g2.add_property_layer(layer)`; refused exactly like on the first:
@@ -1064,5 +1210,19 @@ example : (run (init .new [1, 3] 0)
     [.create "a" .int 1, .create "b" .float 0, .layerSet 1 [0, 0] 5, .layerSet 1 [0, 2] 7, .layerSet 2 [0, 1] 4, .grab 0 1,
      .setFrom 2 0 (some fun x => x == 0), .dump 2, .grab 1 2, .setFrom 1 1 none]).2.drop 6 =
     [.ok, .arr [20, 4, 28], .ok, .err .type] := by decide
+
+/-- 2.75 as the default of an int layer is 2 through both views; -0.5 as the default of a bool layer is True;
+    True as the default of a float layer is 1.0 -/
+example : (run (init .new [1, 2] 0)
+    [.create "a" .int (.py ⟨.float, 11⟩), .cellGet "a" [0, 1], .layerGet 1 [0, 1], .dtype 1,
+     .create "b" .bool (.py ⟨.float, -2⟩), .cellGet "b" [0, 0], .create "c" .float (.py ⟨.bool, 1⟩), .dump 3]).2 =
+    [.id 1, .val 2, .val 2, .dt .int, .id 2, .val 1, .id 3, .arr [4, 4]] := by decide
+
+/-- the layer's own selection and aggregates on a reachable state: list and mask of the cells above 2, sum, max, min;
+    a layer without cells has a sum (0) but no maximum -/
+example : (run (init .new [1, 3] 0)
+    [.create "a" .int 2, .layerSet 1 [0, 1] 5, .layerSelect 1 (fun x => decide (x > 2)), .aggregate 1 .sum,
+     .aggregate 1 .max, .aggregate 1 .min, .newLayer "z" [0, 2] .int 0, .aggregate 2 .sum, .aggregate 2 .max]).2.drop 2 =
+    [.sel [[0, 1]] [false, true, false], .val 9, .val 5, .val 2, .id 2, .val 0, .err (.value .empty)] := by decide
 
 end Mesa.Layers
